@@ -60,7 +60,8 @@ var vkC13Qs = []vkQ{
 // the probe alphabet (read-only lookups after each event)
 func vkC13Probes() []vkQ {
 	var out []vkQ
-	for _, n := range []string{"a.z.t.", "A.Z.t.", "b.z.t.", "x.a.z.t.", "z.t.", "az.t.", "xz.t.", "q.t.", "t."} {
+	// (`x\.z.t.` is the two-label name ["x.z", "t"]: a sibling of z.t. whose presentation text ends with "z.t.")
+	for _, n := range []string{"a.z.t.", "A.Z.t.", "b.z.t.", "x.a.z.t.", "z.t.", "az.t.", "xz.t.", "q.t.", "t.", `x\.z.t.`, `a\.a.z.t.`} {
 		for _, ty := range []uint16{dns.TypeA, dns.TypeAAAA} {
 			for _, cd := range []bool{false, true} {
 				out = append(out, vkQ{Name: n, Type: ty, Class: dns.ClassINET, CD: cd})
